@@ -422,6 +422,7 @@ func idTable(rd1, rd2 []string) Sx {
 
 type input struct {
 	an     string // devs | couples | burndown | common
+	fam    string // "" or the scale family (sc-ids, sc-big): tells the driver to use the fast oracles
 	c1, c2 Common
 	dv     [2]Devs
 	cp     [2]Couples
@@ -430,6 +431,9 @@ type input struct {
 
 func (in input) fields() []Sx {
 	fs := []Sx{T("an", A(in.an)), in.c1.sx("c1"), in.c2.sx("c2")}
+	if in.fam != "" {
+		fs = append(fs, T("fam", A(in.fam)))
+	}
 	switch in.an {
 	case "devs":
 		fs = append(fs, T("r1", in.dv[0].sx()), T("r2", in.dv[1].sx()))
@@ -445,6 +449,9 @@ func parseInput(cs Sx) input {
 	in := input{an: must(cs, "an").Args()[0].Atom}
 	in.c1 = parseCommon(must(cs, "c1"))
 	in.c2 = parseCommon(must(cs, "c2"))
+	if f, ok := cs.Field("fam"); ok && len(f.Args()) == 1 {
+		in.fam = f.Args()[0].Atom
+	}
 	switch in.an {
 	case "devs":
 		in.dv[0] = parseDevs(must(cs, "r1").Args()[0])
